@@ -195,6 +195,64 @@ func cmdLockScript(args []string) error {
 			return finish(executed, byKey, examples, samples)
 		}
 	}
+	// ---- LARGE lock maps and large name populations (the model's names are abstract: nothing may depend on how
+	// many there are or on what they are called): (a) one holder with several hundred names gets them all;
+	// (b) holders whose maps are DISJOINT never wait for each other, however many names they hold;
+	// (c) two holders sharing one name out of many still exclude each other on it and both finish.
+	mutex.VerifHook = nil
+	for round := 0; round < 6; round++ {
+		executed++
+		sm := mutex.NewSharedMutex()
+		mk := func(prefix string, n int, write func(i int) bool) commservices.LockMap {
+			m := commservices.LockMap{}
+			for i := 0; i < n; i++ {
+				m[fmt.Sprintf("%s-%d-%d", prefix, round, i)] = write(i)
+			}
+			return m
+		}
+		n := []int{40, 120, 300, 300, 600, 1000}[round]
+		a := mk("alpha", n, func(i int) bool { return i%3 != 0 })
+		b := mk("beta", n, func(i int) bool { return i%2 == 0 })
+		got := make(chan commservices.UnlockHandler, 1)
+		go func() { got <- sm.Lock(a) }()
+		var ha commservices.UnlockHandler
+		select {
+		case ha = <-got:
+		case <-wdog.After(5 * time.Second):
+			add("deadlock", fmt.Sprintf("one holder, %d names", n), fmt.Sprintf("a single request for %d distinct names (nobody else holds anything) did not return within 5 s", n))
+			continue
+		}
+		gotB := make(chan commservices.UnlockHandler, 1)
+		go func() { gotB <- sm.Lock(b) }()
+		select {
+		case hb := <-gotB:
+			hb.Unlock()
+		case <-wdog.After(5 * time.Second):
+			add("serialised", fmt.Sprintf("two disjoint maps of %d names", n), fmt.Sprintf("a request for %d names none of which is held did not get inside within 5 s while another holder held %d OTHER names", n, n))
+			ha.Unlock()
+			continue
+		}
+		// (c) one shared name, written by both
+		shared := fmt.Sprintf("alpha-%d-%d", round, n/2)
+		c := mk("gamma", n, func(i int) bool { return true })
+		c[shared] = true
+		gotC := make(chan commservices.UnlockHandler, 1)
+		go func() { gotC <- sm.Lock(c) }()
+		select {
+		case hc := <-gotC:
+			add("exclusion", fmt.Sprintf("shared name among %d", n), "two holders were inside with the same name, one of them writing")
+			hc.Unlock()
+			ha.Unlock()
+		case <-time.After(150 * time.Millisecond): // blocked on the shared name: as it must be
+			ha.Unlock()
+			select {
+			case hc := <-gotC:
+				hc.Unlock()
+			case <-wdog.After(5 * time.Second):
+				add("deadlock", fmt.Sprintf("shared name among %d", n), "the waiting holder never got its turn after the first one left")
+			}
+		}
+	}
 	return finish(executed, byKey, examples, samples)
 }
 
